@@ -559,12 +559,20 @@ class Evaluator:
             it = self.eval(s.iter)
             if isinstance(it, Opaque):
                 raise Unknown(f"loop over an opaque iterable: {ast.unparse(s.iter)[:60]}")
+            # Python's own iterator protocol: a list that is changed while it is iterated shifts under the loop (elements
+            # are skipped or seen twice), a dict or set that changes size raises - as in the evaluated program
             try:
-                items = list(it)
+                iterator = iter(it)
             except TypeError:
                 raise Unknown("loop over a non-iterable")
             broke = False
-            for x in items:
+            while True:
+                try:
+                    x = next(iterator)
+                except StopIteration:
+                    break
+                except RuntimeError:
+                    raise EvalRaise("RuntimeError", s)
                 self.assign(s.target, x)
                 try:
                     self.run(s.body)
